@@ -1,7 +1,7 @@
 (* C09 - Unsatisfiable graphs are refused, satisfiable ones accepted, never mis-generated.  (v1: refusal of cycles) *)
-From Coq Require Import List Arith Lia Bool.
+From Coq Require Import List Arith Lia Bool NArith.
 Import ListNotations.
-Require Import Dfs GenU GenSound Suppliers.
+Require Import Dfs GenU GenSound Suppliers Resolve Accept.
 
 Section Cycle.
 Variable succs : nat -> list nat.
@@ -60,11 +60,37 @@ Proof. exact orphan_struct_refused. Qed.
 Print Assumptions C09_orphan_refused.
 
 (* acceptance, second half: once the model of NewGraph has accepted a declaration, statement building cannot fail
-   ("no initial pools found" is unreachable) - the injector is emitted. (That NewGraph's model accepts every well-typed,
-   unambiguous, sourced, acyclic declaration additionally needs fuel-sufficiency of the BFS/DFS models; it is checked on
-   every valid declaration of the streams.) *)
+   ("no initial pools found" is unreachable) - the injector is emitted. (C09_acyclic_accepted below is the first half.) *)
 Theorem C09_accept_partial : forall d g, unew_graph d = Gen.OK g -> exists tix, uthreads g = Some tix.
 Proof.
   intros d g H. destruct (gen_sound d g H) as (st & B & _). unfold uthreads. rewrite B. eauto.
 Qed.
 Print Assumptions C09_accept_partial.
+
+(* acceptance, first half, for ALL declarations: if the provider map exists (dpm d = Some: no type has two suppliers, every
+   struct expansion has a source), the requested type is supplied, and the declared providers admit a rank - every provider
+   ranks above the suppliers of the types it requires, i.e. the declaration is acyclic - then the model of NewGraph accepts:
+   the breadth-first construction never exhausts its fuel and the three-colour cycle check never reports a cycle; and then
+   (C09_accept_partial) exactly one injector is emitted. *)
+Theorem C09_acyclic_accepted : forall d pm provs pi gi (rho : nat -> nat),
+  dpm d = Some (pm, provs) -> Gen.assoc (Gen.d_ret d) pm = Some (pi, gi) ->
+  (forall pc p t pj gj, nth_error provs pc = Some p -> In t (Gen.requires p) -> Gen.assoc t pm = Some (pj, gj) -> rho pj < rho pc) ->
+  exists g, unew_graph d = Gen.OK g /\ exists tix, uthreads g = Some tix.
+Proof.
+  intros d pm provs pi gi rho H1 H2 H3. destruct (acyclic_accepted d pm provs pi gi rho H1 H2 H3) as (g & Hg). exists g. split; auto.
+  destruct (gen_sound d g Hg) as (st & B & _). unfold uthreads. rewrite B. eauto.
+Qed.
+Print Assumptions C09_acyclic_accepted.
+
+(* non-vacuity: the diamond R(X(A), Y(A)) with an argument under A satisfies the hypotheses with rank 3,2,2,1 *)
+Example C09_accept_example :
+  let d := {| Gen.d_ret := 1%N; Gen.d_provs := [Gen.mkfn [2;3]%N [[1%N]] false false; Gen.mkfn [4%N] [[2%N]] false true; Gen.mkfn [4%N] [[3%N]] true true; Gen.mkfn [9%N] [[4%N]] false false] |} in
+  exists pm provs pi gi, dpm d = Some (pm, provs) /\ Gen.assoc (Gen.d_ret d) pm = Some (pi, gi) /\
+    forall pc p t pj gj, nth_error provs pc = Some p -> In t (Gen.requires p) -> Gen.assoc t pm = Some (pj, gj) ->
+      nth pj [3;2;2;1] 0 < nth pc [3;2;2;1] 0.
+Proof.
+  eexists. eexists. eexists. eexists. split; [vm_compute; reflexivity|]. split; [vm_compute; reflexivity|].
+  intros pc p t pj gj Hp Ht Ha.
+  destruct pc as [|[|[|[|pc]]]]; simpl in Hp; try (destruct pc; discriminate); inversion Hp; subst p; simpl in Ht;
+    repeat (destruct Ht as [<-|Ht]; [vm_compute in Ha; inversion Ha; subst; simpl; lia|]); destruct Ht.
+Qed.
